@@ -14,6 +14,7 @@ func init() { props["C06"] = runC06 }
 // C06 — snapping is total: no panic, no hang for any in-grid polygon.
 func runC06(c *hc.Ctx) error {
 	c.CorrInit("Texel.Corr.C06", "theories/Corr/C06.v", 120)
+	c.Sum.Exhaustive = "kmpDeduplicate: all chains over 3 centres up to length 10 and 4 centres up to length 8 (quick) without equal neighbours and with first != last, through the implementation AND the model"
 	c.Sum.Rule = "arbitrary vertex sequences on the quarter-pixel lattice of synthetic dyadic grids (random, repeats, spikes, zigzags, periodic words, 0-2 point rings, empty rings, combs) x 1-3 rings x random id subsets x config flags; distinct by (grid, polygon, ids, flags); non-trivial = some ring has >= 3 vertices and the routed chain revisits a pixel centre (collapse) at some level"
 	c.Sum.Oracle = "SnapPolygon on an in-grid polygon returns normally (no panic of any kind, watchdog 20 s) and within c*n^2 time"
 	c.Sum.Partial = "wall-clock time, memory, Go slice aliasing and stack depth cannot be exhibited by the model; they are measured by the harness only"
@@ -53,10 +54,17 @@ func runC06(c *hc.Ctx) error {
 		if lim := time.Duration(50+nv*nv) * time.Millisecond; r.Dur > lim {
 			c.Violate(hc.Violation{What: "SnapPolygon slower than c*n^2", Input: caseJSON(g, poly, ids, cfg, nil), Observed: r.Dur.String(), Expected: "<= " + lim.String()})
 		}
-		c.Case(snapCaseTerm(g, poly, ids, cfg, r), caseJSON(g, poly, ids, cfg, r))
+		c.Case("SnapC ("+snapCaseTerm(g, poly, ids, cfg, r)+")", caseJSON(g, poly, ids, cfg, r))
 		if i < 3 {
 			c.Sample(caseJSON(g, poly, ids, cfg, r))
 		}
+	}
+	// component level: kmpDeduplicate on EVERY chain over 3 centres up to length 10 and 4 centres up to length 8
+	// (thorough: 4 centres up to length 10, 5 up to 9), no equal neighbours, first != last
+	chainStream(c, 3, c.N(10, 13), 0, true, false)
+	chainStream(c, 4, c.N(8, 10), 0, true, false)
+	if !c.Quick() {
+		chainStream(c, 5, 9, 0, true, false)
 	}
 	// tile matrices deeper than level 32 (pixel addresses no longer fit the 32-bit Morton halves)
 	for _, name := range []string{"UPSArcticWGS84Quad", "NZTM2000Quad", "NetherlandsRDNewQuad"} {
